@@ -29,21 +29,21 @@ def run(ctx):
         small = [s for s in scns if s["kind"] != "reg"]
         big = [s for s in scns if s["kind"] == "reg"]
         # every (host class, tag class, digest class, component classes) combination at least once
-        # every (host lexeme, tag class, digest class) combination and every (host lexeme, component
+        # every (host class, tag class, digest class) combination and every (host lexeme, component
         # classes) combination at least once
         byclass = {}
         for s in big:
-            byclass.setdefault(("htd", s["h"], s["tc"], s["dc"]), []).append(s)
+            byclass.setdefault(("htd", s["hc"], s["tc"], s["dc"]), []).append(s)
             byclass.setdefault(("hp", s["h"], tuple(s["pcc"])), []).append(s)
             # every (host lexeme, first component lexeme, number of components): words with a meaning in
             # another slot ("localhost", "library") matter by their spelling, not by their class
             byclass.setdefault(("hp1", s["h"], s["pcs"][0], len(s["pcs"])), []).append(s)
         picked = [rng.choice(v) for v in byclass.values()]
-        rest = rng.sample(big, 2000)
-        chosen = rng.sample(small, min(len(small), 2000)) + picked + rest
+        rest = rng.sample(big, 1000)
+        chosen = rng.sample(small, min(len(small), 1500)) + picked + rest
         mutbases = 120
     rng.shuffle(chosen)
-    nchunks = 8 if ctx.thorough else 4
+    nchunks = 8 if ctx.thorough else 6
     chunks = [chosen[i::nchunks] for i in range(nchunks)]
     stats = {"scenarios": 0, "accepted": 0, "mutants": 0, "mutants_accepted": 0}
     logs = []
@@ -81,7 +81,7 @@ def run(ctx):
     states = gen["distinct"]
     trans = gen["generated"]
     nlines = 0
-    with concurrent.futures.ThreadPoolExecutor(max_workers=4) as ex:
+    with concurrent.futures.ThreadPoolExecutor(max_workers=6) as ex:
         results = list(ex.map(validate_log, logs))
     for rej, st, tr, n in results:
         states += st
@@ -116,12 +116,18 @@ def run(ctx):
                 f.write("\n".join(ls) + "\n")
             if ctx.validate("RefTrace", "C15_trace.cfg", p)["accepted"]:
                 raise vlib.ToolError("binding demo %s accepted: trace spec does not bind" % name)
-        demo("components", lambda e: e["ev"] == "ref" and e["ok"] == 1 and e["kind"] == "reg" and e["hc"] == "absent",
+        # (each validation pays TLC's evaluation of the grammar's constant sets: run the demos side by side)
+        demos = [
+            ("components", lambda e: e["ev"] == "ref" and e["ok"] == 1 and e["kind"] == "reg" and e["hc"] == "absent",
              lambda e: e.update(repository=e["repository"].replace("library/", "")) if "library/" in e["repository"]
-             else e.update(registry="example.org"))
-        demo("accept", lambda e: e["ev"] == "ref" and e["ok"] == 0, lambda e: e.update(ok=1))
-        demo("roundtrip", lambda e: e["ev"] == "mutant" and e["ok"] == 1, lambda e: e.update(c_tag=e["c_tag"] + "x"))
-        demo("setter", lambda e: e["ev"] == "ref" and e["ok"] == 1, lambda e: e.update(st_digest="sha256:00"))
+             else e.update(registry="example.org")),
+            ("accept", lambda e: e["ev"] == "ref" and e["ok"] == 0, lambda e: e.update(ok=1)),
+            ("roundtrip", lambda e: e["ev"] == "mutant" and e["ok"] == 1, lambda e: e.update(c_tag=e["c_tag"] + "x")),
+            ("setter", lambda e: e["ev"] == "ref" and e["ok"] == 1, lambda e: e.update(st_digest="sha256:00")),
+            ("history", lambda e: e["ev"] == "ref" and e["ok"] == 1, lambda e: e.update(again=0)),
+        ]
+        with concurrent.futures.ThreadPoolExecutor(max_workers=5) as ex:
+            list(ex.map(lambda d: demo(*d), demos))
     samples = [{k: v for k, v in chosen[0].items()}, {k: v for k, v in chosen[1].items()}]
     cov = {
         "states": states, "transitions": trans,
